@@ -1,8 +1,8 @@
 package zzverif
 
 import (
-	json2 "github.com/evanphx/json-patch/v5/internal/json"
 	jsonpatch "github.com/evanphx/json-patch/v5"
+	json2 "github.com/evanphx/json-patch/v5/internal/json"
 	"github.com/evanphx/json-patch/v5/zzverif/vx"
 )
 
